@@ -210,6 +210,17 @@ pub fn judge(case: &FmtCase, obs: &[CallObs]) -> Result<Judged, String> {
                                 if !o.handler.is_empty() {
                                     out.push(f(Aspect::Outcome, i, format!("handler invoked on success: {:?}", o.handler)));
                                 }
+                                // no Ok(metric) is returned in the quiet form: the one string the sink
+                                // accepted must be this call's own metric text
+                                if n_emit == 1 {
+                                    if let Err(me) = match_line_ex(&o.emitted[0], &exp) {
+                                        out.push(f(
+                                            Aspect::Outcome,
+                                            i,
+                                            format!("quiet send handed the sink '{}', which is not this call's metric: {}", clip(&o.emitted[0]), me.msg),
+                                        ));
+                                    }
+                                }
                             }
                             (_, Some(Ok(text))) => {
                                 if n_emit >= 1 && !o.emitted.iter().any(|e| e == text) {
